@@ -93,4 +93,48 @@ def unionResult (p : Params) (u : Un ν) (tt : TType) : St ν := copyAs p u.gadg
 /-- `hll_union::reset()` -/
 def unionReset (p : Params) (u : Un ν) : Un ν := { u with gadget := reset p u.gadget }
 
+/-! ### histories (used by the theorems of Props/C04.lean) -/
+
+/-- an input sketch described by its own configuration and item (coupon) stream -/
+structure SkDesc where
+  lgK : Nat
+  tt : TType
+  sf : Bool
+  cs : List Nat
+deriving Repr
+
+def SkDesc.build (p : Params) (d : SkDesc) : St ν := run p (newSketch p d.lgK d.tt d.sf) d.cs
+
+inductive UOp where
+  | merge (d : SkDesc) (rvalue : Bool)   -- update(sketch) / update(std::move(sketch))
+  | coupon (c : Nat)                     -- update(raw item) at the coupon level
+  | touch                                -- get_estimate / get_composite_estimate / get_lower_bound / get_upper_bound
+  | reset
+deriving Repr
+
+def uStep (p : Params) (u : Un ν) : UOp → Un ν
+  | .merge d false => unionUpdate p u (d.build p)
+  | .merge d true => unionUpdateRv p u (d.build p)
+  | .coupon c => unionCoupon p u c
+  | .touch => unionTouch u
+  | .reset => unionReset p u
+
+def uRun (p : Params) (u : Un ν) (ops : List UOp) : Un ν := ops.foldl (uStep p) u
+
+/-- every coupon offered since the last reset: the inputs' own item lists and the raw items -/
+def offered : List UOp → List Nat
+  | [] => []
+  | .merge d _ :: t => if t.any (fun o => match o with | .reset => true | _ => false) then offered t else d.cs ++ offered t
+  | .coupon c :: t => if t.any (fun o => match o with | .reset => true | _ => false) then offered t else c :: offered t
+  | _ :: t => offered t
+
+/-- min(lg_max_k, lg_k of every HLL-mode input since the last reset) -/
+def expectedLgK (p : Params) (lgMaxK : Nat) : List UOp → Nat
+  | [] => lgMaxK
+  | .merge d _ :: t =>
+    if t.any (fun o => match o with | .reset => true | _ => false) then expectedLgK p lgMaxK t
+    else if (d.build p : St Unit).mode = .hll ∧ ¬ isEmpty (d.build p : St Unit) then min d.lgK (expectedLgK p lgMaxK t)
+    else expectedLgK p lgMaxK t
+  | _ :: t => expectedLgK p lgMaxK t
+
 end DS.Hll
